@@ -109,6 +109,8 @@ def make_argv(truth, paths, opts, outdir, indir):
         mode = "bam" if len(exps) == 1 and o["only_exp"] is None and len(paths["exps"]) == 1 else "yaml"
     if mode == "bam":
         argv += ["--bam"] + exps[0]["bams"]
+        if exps[0].get("illumina"):
+            argv += ["--illumina_bam"] + exps[0]["illumina"]
         prefixes = ["OUT"]
     elif mode == "bam_list":
         lst = os.path.join(indir, "bams.list")
@@ -124,9 +126,10 @@ def make_argv(truth, paths, opts, outdir, indir):
         with open(y, "w") as f:
             f.write("[\n  {\"data format\": \"bam\"}")
             for e in exps:
-                f.write(",\n  {\"name\": \"%s\", \"long read files\": [%s], \"labels\": [%s]}" % (
+                f.write(",\n  {\"name\": \"%s\", \"long read files\": [%s], \"labels\": [%s]%s}" % (
                     e["name"], ", ".join('"%s"' % b for b in e["bams"]),
-                    ", ".join('"%s"' % os.path.basename(b)[:-4] for b in e["bams"])))
+                    ", ".join('"%s"' % os.path.basename(b)[:-4] for b in e["bams"]),
+                    (', "illumina bam": [%s]' % ", ".join('"%s"' % b for b in e["illumina"])) if e.get("illumina") else ""))
             f.write("\n]\n")
         argv += ["--yaml", y]
         prefixes = [e["name"] for e in exps]
